@@ -68,6 +68,16 @@ CLAIMS: dict[str, dict[str, str]] = {
         "note": NOTE + " rustc --emit=mir (release overflow setting, opt-level 0) is trusted to reflect the helper.",
         "technique": "AST vs MIR symbolic path summaries (translation-validation style sibling agreement)",
     },
+    "C07": {
+        "text": "Static rule checking on the Python AST and rustc MIR: the four searches over the cumulative "
+                "days-before-month table use the comparison the table's meaning forces (derived: d in month k iff "
+                "T[k] < d <= T[k+1]) and return (i-1, d-T[i-1]); week-date ordinal formula, range guards and year "
+                "wrap are the same normal forms in both parsers; 6-digit fraction cut/pad; offset = ((h*60)+m)*60*sign "
+                "in both parsers and the formatter clone; field-faithful wrapping in parser._parse/_normalize; "
+                "exact=True pass-through. The grammar mapping as a whole is run-time behaviour and not claimed.",
+        "note": NOTE + " rustc --emit=mir is trusted to reflect the compiled parser.",
+        "technique": "cumulative-table search rule, AST/MIR symbolic normal forms, sibling agreement, recon fidelity",
+    },
 }
 
 NOT_APPLICABLE: dict[str, str] = {}
